@@ -61,6 +61,20 @@ def evaluate(e, env):
             f_, v_ = _class_constant(e.attr, env, base.name if isinstance(base, ClassRef) else None)
             if f_: return v_
         h_ = (env.get("__functions__") or {}).get(e.attr)
+        if isinstance(base, (dict, ClassRef)) and not isinstance(base, Inst) and h_ is not None and isinstance(getattr(h_, "_parent", None), ast.ClassDef) and not any(isinstance(d_, ast.Name) and d_.id == "property" for d_ in h_.decorator_list):
+            # a method of the sample's class used as a value (e.g. a staticmethod put into a table): calling it interprets the method
+            static_ = any(isinstance(d_, ast.Name) and d_.id == "staticmethod" for d_ in h_.decorator_list)
+            def _bound(*a, _h=h_, _b=base, _st=static_, **k):
+                ps_ = [x.arg for x in _h.args.args]
+                env2 = dict(env); env2["__depth__"] = env.get("__depth__", 0) + 1; env2["__global_names__"] = set()
+                if env2["__depth__"] > 12: raise Unsupported("recursion depth")
+                if not _st and ps_: env2[ps_[0]] = _b; ps_ = ps_[1:]
+                dfl = dict(zip([x.arg for x in _h.args.args][len(_h.args.args) - len(_h.args.defaults):], _h.args.defaults))
+                for n_, d_ in dfl.items(): env2[n_] = evaluate(d_, env)
+                if len(a) > len(ps_): raise Raised("TypeError")
+                env2.update(zip(ps_, a)); env2.update(k)
+                return run_block(_h.body, env2)
+            return PyFn(_bound)
         if isinstance(base, dict) and h_ is not None and any(isinstance(d_, ast.Name) and d_.id == "property" for d_ in h_.decorator_list) and h_.args.args and env.get("__depth__", 0) < 6:
             env2 = dict(env); env2["__depth__"] = env.get("__depth__", 0) + 1; env2[h_.args.args[0].arg] = base       # a property of the sample's class: its getter is interpreted
             for k_ in [k_ for k_ in env2 if isinstance(k_, str) and k_.startswith(h_.args.args[0].arg + ".")]: del env2[k_]
@@ -71,6 +85,7 @@ def evaluate(e, env):
         if isinstance(base, Trusted):
             if e.attr not in base.names: raise Unsupported("%s.%s is outside the trusted part of the standard library" % (getattr(base.obj, "__name__", "?"), e.attr))
             v_ = getattr(base.obj, e.attr)
+            if isinstance(v_, type) and not issubclass(v_, BaseException): return PyFn(lambda *a, _f=v_, **k: _trusted_call(_f, [(x.fn if isinstance(x, PyFn) else x) for x in a], k))
             return PyFn(lambda *a, _f=v_, **k: _trusted_call(_f, a, k)) if callable(v_) and not isinstance(v_, type) else v_
         if isinstance(base, _re.Pattern) and e.attr in ("pattern", "flags"): return getattr(base, e.attr)
         if isinstance(base, InstObj):
@@ -109,12 +124,24 @@ def evaluate(e, env):
         if e.id in (env.get("__functions__") or {}): return DefClosure(env["__functions__"][e.id], env)      # a function of the analysed module used as a value
         if any(isinstance(getattr(f_, "_parent", None), ast.ClassDef) and f_._parent.name == e.id for f_ in (env.get("__functions__") or {}).values()): return ClassRef(e.id)
         if e.id in TRUSTED: return TRUSTED[e.id]            # a whitelisted standard-library module the analysed file imports under its own name
+        if e.id in ("list", "dict", "set", "tuple", "str", "int", "float", "bool", "frozenset"): return PyFn({"list": list, "dict": dict, "set": set, "tuple": tuple, "str": str, "int": int, "float": float, "bool": bool, "frozenset": frozenset}[e.id])    # a builtin type used as a value (e.g. defaultdict(list))
+        if e.id == "object": return ClassRef("object")
+        if e.id in ("defaultdict", "OrderedDict"): return PyFn(lambda *a, _n=e.id, **k: getattr(__import__("collections"), _n)(*[(x.fn if isinstance(x, PyFn) else x) for x in a], **k))
         # a module-level constant of the analysed file (env["__module__"]: its ast.Module): literal tables and strings
         mod = env.get("__module__")
+        if mod is None:
+            for f_ in (env.get("__functions__") or {}).values():
+                mod = f_
+                while mod is not None and not isinstance(mod, ast.Module): mod = getattr(mod, "_parent", None)
+                if mod is not None: break
         if mod is not None:
             for st_ in mod.body:
                 if isinstance(st_, (ast.Assign, ast.AnnAssign)) and st_.value is not None and any(isinstance(t_, ast.Name) and t_.id == e.id for t_ in (st_.targets if isinstance(st_, ast.Assign) else [st_.target])):
-                    try: v_ = evaluate(st_.value, dict(TRUSTED, **{"__module__": mod, "__depth_const__": env.get("__depth_const__", 0) + 1})) if env.get("__depth_const__", 0) < 4 else None
+                    cenv_ = dict(TRUSTED)
+                    for k_, x_ in env.items():          # constants / stand-ins the analysis supplied (imported names such as MULT_ONE, constructors)
+                        if isinstance(k_, str) and (k_.isupper() or isinstance(x_, (PyFn, ClassRef)) or k_ in ("__classes__", "__functions__", "__classdefs__")) and "." not in k_: cenv_[k_] = x_
+                    cenv_.update({"__module__": mod, "__depth_const__": env.get("__depth_const__", 0) + 1})
+                    try: v_ = evaluate(st_.value, cenv_) if env.get("__depth_const__", 0) < 4 else None
                     except (Unsupported, Raised): break
                     return v_
         raise Unsupported("name %s " % e.id)
@@ -399,6 +426,8 @@ TRUSTED = {
     "re": Trusted(_re, ("compile", "match", "fullmatch", "search", "sub", "escape", "findall", "split", "error", "IGNORECASE", "I", "MULTILINE", "M", "UNICODE", "U", "VERBOSE", "X", "DOTALL", "S")),
     "codecs": Trusted(_codecs, ("decode", "encode")),
     "unicodedata": Trusted(_ud, ("lookup", "name", "normalize", "category")),
+    "bisect": Trusted(__import__("bisect"), ("bisect", "bisect_left", "bisect_right", "insort", "insort_left", "insort_right")),
+    "collections": Trusted(__import__("collections"), ("OrderedDict", "defaultdict", "namedtuple", "deque", "Counter")),
     "itertools": Trusted(_BoundedItertools, ("count", "chain", "repeat", "islice", "product")),
     "operator": Trusted(__import__("operator"), ("attrgetter", "itemgetter", "eq", "ne", "lt", "gt", "le", "ge", "add", "sub", "not_", "is_", "is_not", "contains")),
 }
